@@ -311,6 +311,23 @@ func gen(seed uint64, tier string, idx int) sim.CaseI {
 			c.Tasks[i].Back = &Dep{On: j, Kind: []string{"out", "interp", "nested", "mid"}[wr.Intn(4)]}
 		}
 	}
+	// a cycle that only comes into existence when the generator's result is folded in:
+	// collector -> generated tasks -> (a later task that depends on the collector) -> collector
+	if genAt >= 0 && colAt >= 0 && colAt < n-1 && wr.Bool(0.3) {
+		has := false
+		for _, x := range c.Tasks[genAt].List {
+			has = has || x > 1
+		}
+		static := false
+		for _, t := range c.Tasks {
+			static = static || t.Back != nil
+		}
+		j := wr.Range(colAt+1, n-1)
+		if has && !static && c.Tasks[j].Role == "plain" && c.Tasks[j].Place != "ext" {
+			c.Tasks[j].Deps = append(c.Tasks[j].Deps, Dep{On: colAt, Kind: "out"})
+			c.Tasks[dynAt].Back = &Dep{On: j, Kind: "out"}
+		}
+	}
 	m := buildModel(c)
 	// knobs
 	c.UpdatePark = []float64{0, 0, 0.3, 1}[kr.Intn(4)]
@@ -333,7 +350,7 @@ func gen(seed uint64, tier string, idx int) sim.CaseI {
 		c.Sched.Policy = "uniform"
 	}
 	// fault plan
-	if !m.cyclic && len(m.order) > 0 {
+	if !m.cyclic && !m.dynCyclic && len(m.order) > 0 {
 		switch kr.Intn(10) {
 		case 0, 1, 2:
 			c.Fail = m.order[kr.Intn(len(m.order))]
@@ -512,6 +529,11 @@ type model struct {
 	insts  map[string]*inst
 	order  []string // instance paths in spec order
 	cyclic bool
+	// dynCyclic: a cycle appears when the result of generator task cycleGen is folded in
+	// (through the generated instances of template cycleVia)
+	dynCyclic bool
+	cycleGen  int
+	cycleVia  int
 }
 
 func (c *Case) path(i int) string {
@@ -542,9 +564,14 @@ func outOf(name string, in map[string]any) string {
 
 func buildModel(c *Case) *model {
 	m := &model{insts: map[string]*inst{}}
-	for _, t := range c.Tasks {
+	for i, t := range c.Tasks {
 		if t.Back != nil {
-			m.cyclic = true
+			if t.Role == "dyn" {
+				// the cycle exists only once the generated tasks do
+				m.dynCyclic, m.cycleGen, m.cycleVia = true, t.Gen, i
+			} else {
+				m.cyclic = true
+			}
 		}
 	}
 	// A struct outside the root is a task only if an existing task refers into it.
@@ -844,6 +871,9 @@ func exec(t *testing.T, ci sim.CaseI, choices []uint32, keepLog bool) *sim.Outco
 	if m.cyclic {
 		out.Counters["cyclic-workflows"]++
 	}
+	if m.dynCyclic {
+		out.Counters["workflows-with-a-cycle-created-by-a-result"]++
+	}
 	for _, t := range c.Tasks {
 		if t.Role == "dyn" {
 			out.Counters["workflows-with-dynamic-tasks"]++
@@ -893,6 +923,26 @@ func judge(c *Case, m *model, h *harness, runErr error, final []byte, finalErr e
 		case "cancel":
 			cancelSeq = e.seq
 		}
+	}
+	if m.dynCyclic {
+		// The workflow is acyclic until the generator's result creates the generated tasks. From the
+		// moment that result is folded in, the cycle must be reported: Run fails and nothing further is
+		// started (in particular none of the tasks on the cycle, whose inputs can never be resolved).
+		genPath := c.path(m.cycleGen)
+		genEnd, genDone := end[genPath]
+		if !genDone {
+			return nil // the generator never completed (failure / cancellation elsewhere): no cycle yet
+		}
+		if runErr == nil {
+			return viol("cycle-not-reported", "a dependency cycle appeared when %s completed, but Run returned nil", genPath)
+		}
+		for _, e := range h.events {
+			if e.kind == "start" && e.seq > genEnd {
+				return viol("task-started-after-cycle-appeared", "task %s was started after the result of %s had created a dependency cycle", e.path, genPath)
+			}
+		}
+		out.Counters["dynamic-cycles-checked"]++
+		return nil
 	}
 	if m.cyclic {
 		if runErr == nil {
